@@ -38,4 +38,29 @@ def run(ck: Check):
 
 
 def extra(ex, ck, worst):
-    pass
+    quick = ck.tier == "quick"
+    r = rng("c09-pairs")
+    cfgs = [{}, {"repeat": "always"}, {"repeat": "never"}, {"min": 2}, {"max": 2}]
+    br = (b"{\n", b"}\n", b"x\n", b"(\n")
+    for strategy in ("minimize-around", "minimize-balanced"):
+        for tc in small_layouts(4 if quick else 5, alphabet=br[: (3 if quick else 4)], with_nonred=False):
+            if len(tc[1]) < 2:
+                continue
+            for cfg in cfgs[:2]:
+                runs = ex.dfs(strategy, cfg, tc, stream="dfs-" + strategy, max_runs=60 if quick else 600)
+                k = (strategy, len(tc[1]))
+                worst[k] = max(worst.get(k, 0), max(x.tests for x in runs))
+        for n in (6, 17, 27, 64, 150 if quick else 300):
+            shapes = [[b"%d\n" % i for i in range(n)], [b"(\n"] * n, [b"{\n"] * (n // 2) + [b"}\n"] * (n - n // 2),
+                      [r.choice(br) for _ in range(n)]]
+            for parts in shapes:
+                tc = (b"", parts, [True] * n, b"")
+                for cfg in cfgs:
+                    for v in ("Y" * 100000, "Y", "Y" + "NY" * 50000):
+                        run1 = ex.one(strategy, cfg, tc, content(tc), v, stream="long-" + strategy,
+                                      cap=c09_bound(n) + 1)
+                        k = (strategy, n)
+                        worst[k] = max(worst.get(k, 0), run1.tests)
+    # minimize-collapse-brace (line mode): the model gets the re-load through the line splitter
+    ck.cov["worst_case_tests"] = {f"{k[0]}/n={k[1]}": {"tests": v, "bound": c09_bound(k[1])}
+                                  for k, v in worst.items()}
